@@ -10,7 +10,8 @@ from .. import haplotag_gen as G
 
 RULE = ("CLI stream: synthetic phased VCF (1-3 samples, ploidy 2-4, 1-3 phase sets per sample and chromosome, contiguous or "
         "interleaved, unphased / homozygous / PS-less calls) + indexed BAM (1-3 chromosomes, several read groups per sample, "
-        "paired, secondary, supplementary, duplicate, low-MAPQ, placed-unmapped and unplaced-unmapped records, BX barcodes, "
+        "paired, secondary, supplementary, duplicate, low-MAPQ, placed-unmapped (also unmapped mates; contigs that hold only such "
+        "records, last or in the middle of the header; contigs without any record) and unplaced-unmapped records, BX barcodes, "
         "stale HP/PS/PC tags, chimeric reads and varying base qualities so that scores tie or disagree); option combinations "
         "of --regions (none / whole chromosomes / single / open-ended / sorted-far / sorted-near / overlapping / unsorted / "
         "chromosome order), --tag-supplementary, --ignore-read-groups, --sample, --ignore-linked-read, "
@@ -355,6 +356,11 @@ def check_cases(ctx, cases, label, report=True):
         ctx.tally("cli.regions." + rcls)
         ctx.tally("cli.ploidy.%d" % c["ploidy"])
         ctx.tally("cli.alignments", len(r["inp"]))
+        ctx.tally("cli.placed_unmapped_records", sum(1 for x in r["inp"] if x["unmapped"] and x["tid"] >= 0))
+        if "chrU" in c["chroms"]:
+            ctx.tally("cli.contig_with_only_unmapped_records." + ("last" if c["chroms"][-1] == "chrU" else "middle"))
+        if any(not any(x["tid"] == i for x in r["inp"]) for i in range(len(c["chroms"]) - 1)):
+            ctx.tally("cli.empty_contig_before_last")
         ctx.tally("cli.tagged_records", sum(1 for x in r["out"] if x["tags"][0] is not None))
         ctx.tally("cli.reads_with_alleles", sum(len(v) for e in (r["ext"].get("chroms") or {}).values() for v in e["reads"].values()))
         for k in ("tag_supplementary", "ignore_read_groups", "ignore_linked_read", "no_reference", "haplotag_list"):
@@ -636,6 +642,10 @@ def run(ctx):
     for kind in ("overlapping", "unsorted", "sorted-near", "sorted-far", "chrom-order", "chrom", "open", "single"):
         cases += [G.gen_case(rng, region_kind=kind) for _ in range(ctx.n(3, 25))]
     cases += [G.gen_case(rng, region_kind="none") for _ in range(ctx.n(40, 250))]
+    # contigs holding only placed-but-unmapped records (last / in the middle of the header), empty contigs
+    for sp in ("unmapped-only-last", "unmapped-only-middle"):
+        for kind in ("none", "special", "chrom"):
+            cases += [G.gen_case(rng, region_kind=kind, special=sp) for _ in range(ctx.n(3, 20))]
     cases += [G.gen_case(rng, big=not ctx.quick) for _ in range(ctx.n(40, 300))]
     cases += region_grid_cases(rng, full=not ctx.quick)
     ev = check_cases(ctx, cases, "generated")
